@@ -248,8 +248,11 @@ class World:
         if out.ok and out.fired and not all(k in BENIGN_FAULTS for k in out.fired):
             self.probes["swallowed_fault"] += 1
         for p in fs.foreign_touched:  # the foreign actor (toctou) changed these, not the call
-            self.indeterminate(p)
             self.cur["foreign"].add(p)
+            if p in self.mfs or p in self.workload_paths():
+                self.indeterminate(p)
+            # a name outside the workload's namespace (e.g. the temp-file name an atomic writer probes for) is the
+            # library's own business: no recovery obligation and no collateral judgement attaches to it
         self.cur["io"].extend([list(x) for x in out.io])
         self.cur["out"].append(out.describe())
         return out
@@ -261,6 +264,12 @@ class World:
         if path in self.pending_recovery:
             del self.pending_recovery[path]
             self.probes["recovery_after_fault"] += 1
+
+    def workload_paths(self):
+        try:
+            return set(self.prop.paths(self))
+        except Exception:  # noqa: BLE001
+            return set()
 
     def indeterminate(self, path):
         self.mfs[path] = ("indet",)
